@@ -5,7 +5,7 @@ modifies the /repo working tree while it runs and restores it afterwards."""
 import json, os, re, subprocess, sys, time
 
 VERIF = os.path.dirname(os.path.dirname(os.path.abspath(__file__)))
-EXTRA = {'C01': ['C14'], 'C13-1': ['C18'], 'C14': ['C01']}
+EXTRA = {'C01': ['C14'], 'C13-1': ['C18'], 'C14': ['C01'], 'C07': ['C08']}
 NEEDS = {}
 seeds = sorted(os.listdir(os.path.join(VERIF, 'seeded')))
 only = sys.argv[1:] 
